@@ -471,7 +471,13 @@ class ExprMixin(EngineCore):
         d = st.heap[v.oid]
         if attr in d:
             return d[attr]
-        if attr in ("errno", "strerror", "filename", "value", "exceptions", "__traceback__", "__cause__", "__context__"):
+        if attr == "exceptions":
+            lst = self.new_list(st, ())
+            n = smt.fresh("nexc", smt.I)
+            st.assume(n >= 1)
+            st.heap[lst.oid]["$len"] = n
+            return lst
+        if attr in ("errno", "strerror", "filename", "value", "__traceback__", "__cause__", "__context__"):
             if attr == "value":
                 a = d.get("args", ())
                 return a[0] if a else None
